@@ -8,6 +8,7 @@ use serde::{Deserialize, Serialize};
 use serde_json::json;
 
 pub mod book;
+pub mod envchk;
 pub mod multi;
 
 #[derive(Clone, Debug, PartialEq, Eq, Hash, Serialize, Deserialize)]
@@ -15,6 +16,7 @@ pub enum Case {
     Book(BookCase),
     Market(MarketCase),
     Trunc(multi::TruncCase),
+    Env(crate::envcase::EnvCase),
 }
 
 const BOOK_IDS: [&str; 9] = ["C01", "C02", "C03", "C04", "C05", "C06", "C07", "C12", "C13"];
@@ -29,6 +31,7 @@ pub fn outcome(id: &'static str, case: &Case) -> Outcome {
         Case::Book(c) => book::outcome(id, c),
         Case::Market(c) => multi::market_outcome(id, c),
         Case::Trunc(c) => multi::trunc_outcome(id, c),
+        Case::Env(c) => envchk::env_outcome(id, c),
     }
 }
 
@@ -37,6 +40,7 @@ fn simplify(case: &Case) -> Vec<Case> {
         Case::Book(c) => book::simplify(c).into_iter().map(Case::Book).collect(),
         Case::Market(c) => multi::simplify_market(c).into_iter().map(Case::Market).collect(),
         Case::Trunc(_) => vec![],
+        Case::Env(c) => envchk::simplify_env(c).into_iter().map(Case::Env).collect(),
     }
 }
 
@@ -55,6 +59,14 @@ pub fn spec(id: &'static str, tier: Tier) -> Option<CheckSpec<Case>> {
             rule = r;
         } else {
             rule = format!("{} || Multi-asset / file parts: {}", rule, r);
+        }
+    }
+    if let Some((p, r)) = envchk::parts(id, tier) {
+        parts.extend(p);
+        if rule.is_empty() {
+            rule = r;
+        } else {
+            rule = format!("{} || Environment parts: {}", rule, r);
         }
     }
     if parts.is_empty() {
